@@ -930,6 +930,67 @@ pub fn sched_child(harness: &str, prefix_json: &str) {
     println!("{}", exec_to_json(&x));
 }
 
+// ======================================================================== auxiliary free-running pass
+// NOT part of the exhaustive exploration and never used to claim that the property holds: shared
+// state that a change introduces outside the hook points (hand-rolled atomics, new lazy tables) is
+// invisible to the baton scheduler. This pass starts fresh processes in which several real threads
+// make their first calls at the same instant (spin barrier) and compares every result with the
+// sequential cold reference. A discrepancy is a genuine violation; silence means nothing.
+
+/// first-touch alphabet (pure constants: building it touches no lazy table of the library)
+pub fn race_alphabet() -> Vec<AOp> {
+    use crate::refcodec::{encode, Tuple};
+    let id = |face, quintant, s, res| encode(Tuple { face, quintant, s, res }).unwrap();
+    vec![
+        AOp::Lookup(12.3, 45.6, 0),
+        AOp::Lookup(-120.0, -35.0, 1),
+        AOp::Lookup(100.0, 10.0, 2),
+        AOp::Lookup(-60.0, 60.0, 7),
+        AOp::Lookup(151.2, -33.9, 29),
+        AOp::Lookup(-3.7, 40.4, 26),
+        AOp::Centre(id(10, 0, 5, 3)),
+        AOp::Centre(id(7, 3, 0x2_aaaa_aaaa_aaaa, 26)),
+        AOp::Centre(id(2, 1, 0x55_5555_5555_5555, 29)),
+        AOp::Boundary(id(5, 4, 77, 5), Some(3)),
+        AOp::Children(id(1, 2, 9, 4)),
+        AOp::Parent(id(8, 1, 1234, 7)),
+        AOp::Uncompact(vec![id(6, 0, 0, 1)], 4),
+        AOp::Compact(crate::refcodec::children(id(3, 3, 0, 1))),
+    ]
+}
+
+/// child entry: run one op per thread, all released together; print the results as JSON
+pub fn race_child(assign_json: &str) {
+    // first element = stagger (extra spin iterations per thread index), rest = op index per thread
+    let mut assign: Vec<usize> = serde_json::from_str(assign_json).unwrap_or_default();
+    let stagger = if assign.is_empty() { 0 } else { assign.remove(0) };
+    let alpha = race_alphabet();
+    let n = assign.len();
+    let gate = std::sync::Arc::new(std::sync::atomic::AtomicUsize::new(0));
+    let hs: Vec<_> = assign
+        .iter()
+        .enumerate()
+        .map(|(t, &i)| {
+            let op = alpha[i % alpha.len()].clone();
+            let gate = gate.clone();
+            std::thread::spawn(move || {
+                gate.fetch_add(1, Ordering::SeqCst);
+                while gate.load(Ordering::SeqCst) < n {
+                    std::hint::spin_loop();
+                }
+                for _ in 0..(t * stagger) {
+                    std::hint::spin_loop();
+                }
+                let first = run_aop(&op);
+                let second = run_aop(&op);
+                (first, second)
+            })
+        })
+        .collect();
+    let rs: Vec<(Res, Res)> = hs.into_iter().map(|h| h.join().unwrap_or((err_bits("thread died"), vec![]))).collect();
+    println!("{}", serde_json::to_string(&rs).unwrap());
+}
+
 fn fixed_ids() -> (u64, u64) {
     // r=3 cell straddling a face edge and an r=5 cell on face 3 (constants: no lookup needed, so that
     // a cold process does not touch any lazy table while building the harness)
@@ -1204,6 +1265,67 @@ pub fn run(tier: &str, verif_dir: &str) -> Report {
     }
     rep.sink.extend(sched_out);
     a5::verif::install(noop_hook);
+    // ---------------- auxiliary free-running pass (fresh processes, real concurrency; see above)
+    let mut aux_children = 0u64;
+    let mut aux_failed_children = 0u64;
+    {
+        let alpha = race_alphabet();
+        let coldv: Vec<Res> = alpha
+            .iter()
+            .map(|op| {
+                let op = op.clone();
+                in_fresh_thread(move || run_aop(&op))
+            })
+            .collect();
+        let threads = 8usize;
+        let mut assigns: Vec<Vec<usize>> = Vec::new();
+        for i in 0..alpha.len() {
+            assigns.push(vec![i; threads]);
+            for j in (i + 1)..alpha.len() {
+                assigns.push((0..threads).map(|t| if t % 2 == 0 { i } else { j }).collect());
+            }
+        }
+        let repeats = if quick { 1 } else { 8 };
+        let staggers: &[usize] = &[0, 2, 8, 30, 120];
+        let jobs_owned: Vec<(usize, Vec<usize>)> = (0..repeats).flat_map(|_| staggers.iter().flat_map(|&st| assigns.iter().map(move |a| (st, a.clone())))).collect();
+        let jobs: Vec<&(usize, Vec<usize>)> = jobs_owned.iter().collect();
+        // two children at a time: the threads of one child need real cores to collide
+        let pool = rayon::ThreadPoolBuilder::new().num_threads(2).build().unwrap();
+        let results: Vec<(Vec<usize>, Option<Vec<(Res, Res)>>)> = pool.install(|| {
+            jobs.par_iter()
+                .map(|(st, a)| {
+                    let mut arg = vec![*st];
+                    arg.extend(a.iter().copied());
+                    let o = std::process::Command::new(&exe).args(["C13", "--race-child", &serde_json::to_string(&arg).unwrap()]).output();
+                    let parsed = o.ok().and_then(|o| serde_json::from_str::<Vec<(Res, Res)>>(String::from_utf8_lossy(&o.stdout).lines().last().unwrap_or("")).ok());
+                    (arg, parsed)
+                })
+                .collect()
+        });
+        for (a, r) in results {
+            aux_children += 1;
+            let r = match r {
+                Some(r) => r,
+                None => {
+                    aux_failed_children += 1;
+                    continue;
+                }
+            };
+            for (t, (first, second)) in r.iter().enumerate() {
+                let want = &coldv[a[t + 1] % alpha.len()];
+                if first != want || second != want {
+                    rep.sink.push(viol(
+                        "C13/race-observed",
+                        format!("free-running fresh process, {} threads released together: thread {} calling {} got {:x?} (then {:x?}), the sequential result is {:x?}", a.len() - 1, t, alpha[a[t + 1] % alpha.len()].json(), trunc(first), trunc(second), trunc(want)),
+                        json!({"kind": "race", "assignment": a}),
+                    ));
+                    break;
+                }
+            }
+        }
+    }
+    rep.set("auxiliary_free_running_children", json!(aux_children));
+    rep.set("auxiliary_children_without_output", json!(aux_failed_children));
 
     let nstates = states.lock().unwrap().len() + bfs_states;
     let h = histories.load(Ordering::Relaxed);
@@ -1227,6 +1349,7 @@ pub fn run(tier: &str, verif_dir: &str) -> Report {
     rep.sample(json!({"api_history": [aops[3].json(), aops[13].json()]}));
     rep.sample(json!({"schedule_harness": "warm", "workers": harness_workers("warm").iter().map(|w| w.iter().map(|o| o.json()).collect::<Vec<_>>()).collect::<Vec<_>>()}));
     rep.assume("switch points exist at the hook points only; memory-ordering effects below that granularity are not explored");
+    rep.assume("auxiliary free-running pass (fresh processes, 8 threads released together, first-touch alphabet): sampling of real schedules, reported separately; its silence supports no claim; shared state introduced outside the hook points is invisible to the exhaustive scheduler");
     rep.assume("bounded: 2-3 workers, 1-2 calls each, preemption bound 1-3; histories of length <= 3 plus BFS closure in 16-op universes");
     rep
 }
@@ -1257,6 +1380,26 @@ pub fn replay(case: &Value, verif_dir: &str) -> Vec<Viol> {
             } else {
                 vec![]
             }
+        }
+        "race" => {
+            // not deterministic: re-run the same assignment in up to 300 fresh processes
+            let a: Vec<usize> = case["assignment"].as_array().map(|x| x.iter().map(|v| v.as_u64().unwrap_or(0) as usize).collect()).unwrap_or_default();
+            let alpha = race_alphabet();
+            let coldv: Vec<Res> = alpha.iter().map(|op| { let op = op.clone(); in_fresh_thread(move || run_aop(&op)) }).collect();
+            let exe = format!("{}/target/release/a5check", verif_dir);
+            for _ in 0..300 {
+                if let Ok(o) = std::process::Command::new(&exe).args(["C13", "--race-child", &serde_json::to_string(&a).unwrap()]).output() {
+                    if let Ok(r) = serde_json::from_str::<Vec<(Res, Res)>>(String::from_utf8_lossy(&o.stdout).lines().last().unwrap_or("")) {
+                        for (t, (f, s2)) in r.iter().enumerate() {
+                            let want = &coldv[a[t + 1] % alpha.len()];
+                            if f != want || s2 != want {
+                                return vec![viol("C13/race-observed", format!("reproduced: thread {} differs from the sequential result", t), case.clone())];
+                            }
+                        }
+                    }
+                }
+            }
+            vec![]
         }
         "schedule" => {
             let name = case["harness"].as_str().unwrap_or("warm");
